@@ -299,6 +299,25 @@ GridLaws(xmin, xmax) ==
   /\ \A i \in 1..(Len(g) - 1) : QSub(g[i + 1], g[i]) = One
   /\ QLe(g[Len(g)], xmax) /\ QLt(xmax, QAdd(g[Len(g)], One))
 
+(* The length of the default grid said in other words (the statement: "spans xmin..xmax in unit steps"): it is  *)
+(* the number of points xmin + k (k = 0, 1, ...) that do not lie beyond xmax.  The x-range of a trace set need   *)
+(* NOT be a whole number of pixels (xmin / xmax may be, or may be derived from, real-valued positions): then the *)
+(* grid stops strictly before xmax - it never runs past it; only when xmax - xmin is whole does it end AT xmax.  *)
+(* The length depends on xmax - xmin only (moving both limits by the same amount moves the grid with them).      *)
+GridCount(xmin, xmax) == Cardinality({k \in 0..(Floor(QSub(xmax, xmin)) + 2) : QLe(QAdd(xmin, OfInt(k)), xmax)})
+GridShifts == {Half, <<-1, 4>>, <<3, 1>>, <<-7, 3>>}
+GridLenLaws(xmin, xmax) ==
+  LET n == GridLen(xmin, xmax)
+      d == QSub(xmax, xmin)
+      g == DefaultGrid(xmin, xmax)
+  IN /\ n = GridCount(xmin, xmax)
+     /\ n >= 1 /\ Len(g) = n
+     /\ (d[2] = 1) => (n = d[1] + 1 /\ g[n] = xmax)
+     /\ (d[2] # 1) => (QLt(g[n], xmax) /\ QLt(QSub(xmax, One), g[n]))
+     /\ \A i \in 1..n : QLe(xmin, g[i]) /\ QLe(g[i], xmax)
+     /\ \A s \in GridShifts : /\ GridLen(QAdd(xmin, s), QAdd(xmax, s)) = n
+                              /\ \A i \in 1..n : DefaultGrid(QAdd(xmin, s), QAdd(xmax, s))[i] = QAdd(g[i], s)
+
 (* A trace-set problem t: basis, nc, xpos, ypos, w (nTrace sequences of equal length),        *)
 (* gmin / gmax (is xmin / xmax supplied by the caller?), xmin, xmax, jump.  A supplied limit   *)
 (* is used whatever its value (zero and negative values included); only a limit that is not   *)
